@@ -24,6 +24,8 @@ def body(name, dirs, marker=None, r=None):
     marker = marker or name
     s = marker + "1"
     for j, d in enumerate(dirs):
+        if d == EOF_DIR:
+            return s + "\n" + (r.choice(["include", "Include", "INCLUDE"]) if r is not None else "include") + ("" if j % 2 else "  // nothing follows\n")
         kw = "include"
         sep = "\n"
         if r is not None:
@@ -34,8 +36,12 @@ def body(name, dirs, marker=None, r=None):
     return s
 
 
+EOF_DIR = "<eof>"   # a bare `include` as the very last thing in the file
+
+
 def options(targets):
-    return [()] + [(t,) for t in targets] + [(t, u) for t in targets for u in targets]
+    o = [()] + [(t,) for t in targets] + [(t, u) for t in targets for u in targets]
+    return o + [(EOF_DIR,)] + [(t, EOF_DIR) for t in targets]
 
 
 def plan(tier, seed):
@@ -90,6 +96,8 @@ def gen(spec):
             for i, nm in enumerate(names):
                 k = r.randint(0, 4)
                 ds = [r.choice(names + [nm, "missing1", "some/missing file.theo", None]) for _ in range(k)]
+                if r.random() < 0.15:
+                    ds.append(EOF_DIR)
                 files[nm] = body(nm, ds, marker="k%d_" % i, r=r)
             main = r.choice(names + ["nomain"] if r.random() < 0.1 else names)
             out.append((files, main))
